@@ -48,7 +48,8 @@ struct Exec {
     std::map<std::string, bool> nt;
     std::string prop;                     // property being checked (selects profile-specific behaviour only)
     bool ctx_teardown = false, torn_in_teardown = false;
-    bool unobserved_mode = false;
+    bool unobserved_mode = false; int ctx_gen = 0;
+    std::vector<long> pending_free_checks; void check_pending_frees();
     bool nt_last_illegal = false; long fd_bytes[8];
     std::deque<UBox> boxes;
     double tick_armed_at = 0; long ticks_seen = 0;
@@ -61,9 +62,11 @@ struct Exec {
     void drop_retained(size_t i);
     void check_zombie_answers(Inst *x);
     bool timers_active();
+    // a descriptor source leaves its module: an auto-close descriptor now belongs to (and is closed by) the library
+    void release_fd_src(const FdSrc &f) { if (f.autoclose && !f.dup) harness_fd_open[f.idx] = false; }
     // is a poison pill the first required pending entry of y?
     bool pill_is_next(Inst *y) { for (auto &m : y->mailbox) { if (m.pill) return true; if (!m.optional) return false; } return false; }
-    bool maybe_fired(Inst *y, const Sub &s) { if (!s.oneshot) return false; for (auto &m : y->mailbox) for (auto &v : m.via) if (v.sub_topic == s.topic) return true; return false; }
+    bool maybe_fired(Inst *y, const Sub &s) { if (!s.oneshot) return false; if (s.maybe_gone) return true; for (auto &m : y->mailbox) for (auto &v : m.via) if (v.sub_topic == s.topic) return true; return false; }
     void close_harness_fds();
     std::set<int> open_fds();
 
@@ -99,6 +102,7 @@ struct Exec {
     void model_stop(Inst *x, bool dereg, int prev_state_override);
     void model_clear_module(Inst *x);
     void drop_mailbox(Inst *x);
+    void make_mailbox_optional(Inst *x) { for (auto &m : x->mailbox) if (!m.optional) { m.optional = true; payload_hold(m.payload, -1); for (auto &via : m.via) if (via.oneshot) { auto it = x->subs.find(via.sub_topic); if (it != x->subs.end()) it->second.maybe_gone = true; } } }
     void notify(const char *topic, Inst *sender, bool required);
     bool sub_matches(Inst *y, const std::string &topic, std::vector<Sub *> *which);
     void accept_msg(Inst *to, const Msg &m);
